@@ -128,6 +128,21 @@ theorem retime_state_advanced (m : Mealy σ ι ο) (en : Stream Bool) (r : ι) (
     m.run en (regS en r xs) t = regS en (m.out m.init r) ((m.advance r).run en xs) t :=
   Mealy.retime_advanced m en r xs t
 
+/-- (b-hold) State that depends on the grouped inputs and holds (registers / memory write ports whose enable is computed from grouped inputs,
+`forwardPlanningHandleEnablePort`): `retimeForwardToOutput` keeps the state's reset value, which is exact from cycle 0 whenever one step
+under the reset inputs leaves the initial state unchanged, e.g. when the enable logic evaluates to 0 on the group's reset values
+(`valid = grp(valid, '0')`) or the register's reset value is what it would load. -/
+theorem retime_state_neutral_reset (m : Mealy σ ι ο) (en : Stream Bool) (r : ι) (xs : Stream ι) (t : Nat)
+    (h : m.next m.init r = m.init) :
+    m.run en (regS en r xs) t = regS en (m.out m.init r) (m.run en xs) t := by
+  have hm : m.advance r = m := by
+    cases m; simp only [Mealy.advance] at h ⊢; simp [h]
+  rw [Mealy.retime_advanced, hm]
+
+-- a hold register enabled by `tag == 1` with tag reset 0: the reset inputs do not enable it
+example : (fun (m : Mealy Nat (Nat × Nat) Nat) => m.next m.init (5, 0) = m.init)
+    ⟨9, fun s x => if x.2 = 1 then x.1 else s, fun s x => s + x.1⟩ := by decide
+
 /-- (b-ff) Feed-forward registers only (after `k` consumed inputs the state has forgotten where it started): what
 `retimeForwardToOutput` produces (state registers keep their reset value) equals the reference twin from the cycle the pipeline
 has filled, i.e. once `k + 1` enabled edges have passed. -/
